@@ -73,13 +73,18 @@ class BitStore:
                     f"Can't create bitstring with a length of {x.modified_length} from {len(x._bitarray)} bits of data.")
         return x
 
+    def _logical_bitarray(self) -> bitarray.bitarray:
+        """The bitarray holding exactly the bits of this store. This is a copy when a buffer-backed store
+        has a logical length (modified_length) that is shorter than the underlying buffer."""
+        if self.modified_length is None or self.modified_length == len(self._bitarray):
+            return self._bitarray
+        return self._bitarray[:self.modified_length]
+
     def setall(self, value: int, /) -> None:
         self._bitarray.setall(value)
 
     def tobytes(self) -> bytes:
-        if self.modified_length is not None:
-            return self._bitarray[:self.modified_length].tobytes()
-        return self._bitarray.tobytes()
+        return self._logical_bitarray().tobytes()
 
     def slice_to_uint(self, start: Optional[int] = None, end: Optional[int] = None) -> int:
         return bitarray.util.ba2int(self.getslice(start, end)._bitarray, signed=False)
@@ -97,7 +102,7 @@ class BitStore:
         return bitarray.util.ba2base(8, self.getslice(start, end)._bitarray)
 
     def __iadd__(self, other: BitStore, /) -> BitStore:
-        self._bitarray += other._bitarray
+        self._bitarray += other._logical_bitarray()
         return self
 
     def __add__(self, other: BitStore, /) -> BitStore:
@@ -106,27 +111,27 @@ class BitStore:
         return bs
 
     def __eq__(self, other: Any, /) -> bool:
-        return self._bitarray == other._bitarray
+        return self._logical_bitarray() == other._logical_bitarray()
 
     def __and__(self, other: BitStore, /) -> BitStore:
-        return BitStore(self._bitarray & other._bitarray)
+        return BitStore(self._logical_bitarray() & other._logical_bitarray())
 
     def __or__(self, other: BitStore, /) -> BitStore:
-        return BitStore(self._bitarray | other._bitarray)
+        return BitStore(self._logical_bitarray() | other._logical_bitarray())
 
     def __xor__(self, other: BitStore, /) -> BitStore:
-        return BitStore(self._bitarray ^ other._bitarray)
+        return BitStore(self._logical_bitarray() ^ other._logical_bitarray())
 
     def __iand__(self, other: BitStore, /) -> BitStore:
-        self._bitarray &= other._bitarray
+        self._bitarray &= other._logical_bitarray()
         return self
 
     def __ior__(self, other: BitStore, /) -> BitStore:
-        self._bitarray |= other._bitarray
+        self._bitarray |= other._logical_bitarray()
         return self
 
     def __ixor__(self, other: BitStore, /) -> BitStore:
-        self._bitarray ^= other._bitarray
+        self._bitarray ^= other._logical_bitarray()
         return self
 
     def find(self, bs: BitStore, start: int, end: int, bytealigned: bool = False) -> int:
@@ -184,7 +189,7 @@ class BitStore:
                     yield p
 
     def count(self, value, /) -> int:
-        return self._bitarray.count(value)
+        return self._logical_bitarray().count(value)
 
     def clear(self) -> None:
         self._bitarray.clear()
@@ -198,7 +203,7 @@ class BitStore:
 
     def _copy(self) -> BitStore:
         """Always creates a copy, even if instance is immutable."""
-        return BitStore(self._bitarray)
+        return BitStore(self._logical_bitarray())
 
     def copy(self) -> BitStore:
         return self if self.immutable else self._copy()
@@ -208,16 +213,14 @@ class BitStore:
         raise NotImplementedError
 
     def getindex_msb0(self, index: int, /) -> bool:
-        return bool(self._bitarray.__getitem__(index))
+        return bool(self._logical_bitarray().__getitem__(index))
 
     def getslice_withstep_msb0(self, key: slice, /) -> BitStore:
-        if self.modified_length is not None:
-            key = slice(*key.indices(self.modified_length))
-        return BitStore(self._bitarray.__getitem__(key))
+        return BitStore(self._logical_bitarray().__getitem__(key))
 
     def getslice_withstep_lsb0(self, key: slice, /) -> BitStore:
         key = offset_slice_indices_lsb0(key, len(self))
-        return BitStore(self._bitarray.__getitem__(key))
+        return BitStore(self._logical_bitarray().__getitem__(key))
 
     def getslice_msb0(self, start: Optional[int], stop: Optional[int], /) -> BitStore:
         if self.modified_length is not None:
@@ -228,10 +231,10 @@ class BitStore:
 
     def getslice_lsb0(self, start: Optional[int], stop: Optional[int], /) -> BitStore:
         s = offset_slice_indices_lsb0(slice(start, stop, None), len(self))
-        return BitStore(self._bitarray[s.start:s.stop])
+        return BitStore(self._logical_bitarray()[s.start:s.stop])
 
     def getindex_lsb0(self, index: int, /) -> bool:
-        return bool(self._bitarray.__getitem__(-index - 1))
+        return bool(self._logical_bitarray().__getitem__(-index - 1))
 
     @overload
     def setitem_lsb0(self, key: int, value: int, /) -> None:
@@ -244,7 +247,7 @@ class BitStore:
     def setitem_lsb0(self, key: Union[int, slice], value: Union[int, BitStore], /) -> None:
         if isinstance(key, slice):
             new_slice = offset_slice_indices_lsb0(key, len(self))
-            self._bitarray.__setitem__(new_slice, value._bitarray)
+            self._bitarray.__setitem__(new_slice, value._logical_bitarray())
         else:
             self._bitarray.__setitem__(-key - 1, value)
 
@@ -268,17 +271,17 @@ class BitStore:
             self._bitarray.invert()
 
     def any_set(self) -> bool:
-        return self._bitarray.any()
+        return self._logical_bitarray().any()
 
     def all_set(self) -> bool:
-        return self._bitarray.all()
+        return self._logical_bitarray().all()
 
     def __len__(self) -> int:
         return self.modified_length if self.modified_length is not None else len(self._bitarray)
 
     def setitem_msb0(self, key, value, /):
         if isinstance(value, BitStore):
-            self._bitarray.__setitem__(key, value._bitarray)
+            self._bitarray.__setitem__(key, value._logical_bitarray())
         else:
             self._bitarray.__setitem__(key, value)
 
